@@ -409,7 +409,7 @@ func TestC14Respacing(t *testing.T) {
 
 // byte-string generators shared with C01 -------------------------------------
 
-var soupLexemes = append(append([]string{}, c14Lexemes...), "\"", "'", "\n", "\r\n", " ", " ", "\u0085", "\xff", "\xc3", "\xe2\x80", "0", "9", "e", "E", "_", "$", "\\u0041", "\\x4", "\x00", "\t", "\u00a0", "\ufeff", "((", "[[", "))", "]]")
+var soupLexemes = append(append([]string{}, c14Lexemes...), "\"", "'", "\n", "\r\n", "\u2028", "\u2029", "\u0085", "\xff", "\xc3", "\xe2\x80", "0", "9", "e", "E", "_", "$", "\\u0041", "\\x4", "\x00", "\t", "\u00a0", "\ufeff", "((", "[[", "))", "]]")
 
 func genBytes(t *rapid.T, maxLen int) []byte {
 	switch rapid.IntRange(0, 4).Draw(t, "bytekind") {
